@@ -75,6 +75,38 @@ func c13MPCase(out *zzverif.Out, root, s string) {
 	}
 }
 
+// c13OddRootMP: ParseModelPath + GetManifestPath under a models directory given as an arbitrary string.
+func c13OddRootMP(out *zzverif.Out, root, s string) {
+	op := "mp " + zzverif.Hex([]byte(root)) + " " + zzverif.Hex([]byte(s))
+	mp := ParseModelPath(s)
+	p, err := mp.GetManifestPath()
+	ph := "!"
+	if err == nil {
+		ph = zzverif.Hex([]byte(p))
+	}
+	h := func(x string) string { return zzverif.Hex([]byte(x)) }
+	out.Case(op, fmt.Sprintf("f=%s,%s,%s,%s,%s path=%s full=%s short=%s nsrepo=%s", h(mp.ProtocolScheme), h(mp.Registry), h(mp.Namespace), h(mp.Repository), h(mp.Tag), ph,
+		h(mp.GetFullTagname()), h(mp.GetShortTagname()), h(mp.GetNamespaceRepository())))
+	out.Count("cases")
+	out.Count("mp_odd_root")
+	if err != nil {
+		return
+	}
+	out.Count("mp_odd_root_accepted")
+	// below Clean(root): exactly manifests/<h>/<n>/<m>/<t>, no component that climbs
+	rel, rerr := filepath.Rel(filepath.Clean(root), p)
+	comps := strings.Split(rel, "/")
+	bad := rerr != nil || len(comps) != 5 || comps[0] != "manifests" || p != filepath.Clean(p)
+	for _, c := range comps {
+		if c == "" || c == "." || c == ".." {
+			bad = true
+		}
+	}
+	if bad {
+		out.L2("manifest-path-escapes", op, fmt.Sprintf("under models directory %q: %q (relative: %q)", root, p, rel))
+	}
+}
+
 // c13Leaves lists the leaf directories below base (sorted), relative paths excluded: absolute paths.
 func c13Leaves(base string) []string {
 	var res []string
@@ -98,7 +130,12 @@ func c13Leaves(base string) []string {
 
 func c13BlobCase(out *zzverif.Out, root, s string) {
 	op := "blobs " + zzverif.Hex([]byte(root)) + " " + zzverif.Hex([]byte(s))
+	if root != filepath.Clean(root) {
+		out.Count("blobs_odd_root")
+	}
 	// the directory side effect: start from a store that does not exist, see which directories the call leaves behind
+	raw := root
+	root = filepath.Clean(raw) // the op line carries the configured string; the monitors speak about the directory it names
 	os.RemoveAll(root)
 	p, err := GetBlobsPath(s)
 	mk := "!"
@@ -297,6 +334,30 @@ func TestVerifC13(t *testing.T) {
 		}
 		c13CleanCase(out, p)
 	}
+	// models directories that are not clean absolute paths (OLLAMA_MODELS is used verbatim)
+	oddNames := []string{"m", "h/n/m:t", "../x", "a/../b:t", "", "x://h/n/m", "h/n/m", "n/m:1.0", "h/n/..:t", "./m", "m:"}
+	for i := 0; i < 12; i++ {
+		_, nm := zzverif.C13Name(root.Fork())
+		oddNames = append(oddNames, nm)
+	}
+	oddDigests := []string{"", "sha256:" + strings.Repeat("a", 64), "sha256-" + strings.Repeat("B", 64), "../sha256:" + strings.Repeat("a", 64), "sha256:" + strings.Repeat("a", 63), "sha256:" + strings.Repeat("/", 64)}
+	for _, oddAbs := range []string{c13Base + "/l1/l2/l3/../l3/models dir", c13Base + "/l1//l2/l3/models dir/", c13Base + "/l1/l2/l3/./models dir/.", c13Base + "/l1/l2/l3/x/../models dir//"} {
+		t.Setenv("OLLAMA_MODELS", oddAbs)
+		for _, nm := range oddNames {
+			c13OddRootMP(out, oddAbs, nm)
+		}
+		for _, d := range oddDigests {
+			c13BlobCase(out, oddAbs, d)
+		}
+	}
+	// relative roots and "/" itself: only the calls that create nothing (the test's working directory is the source tree)
+	for _, oddRel := range []string{"m", "./m/", "a/../m", "../s", ".", "..", "a//b/", "./", "x/../..", "/", "//", "/..", "/a/..", "../../x/./y", "a/./../../b"} {
+		t.Setenv("OLLAMA_MODELS", oddRel)
+		for _, nm := range oddNames {
+			c13OddRootMP(out, oddRel, nm)
+		}
+	}
+	t.Setenv("OLLAMA_MODELS", models)
 	// enumeration of the store (server.Manifests) and CopyModel over directories with odd entries
 	eroot := zzverif.NewRng(zzverif.Seed() + 3500)
 	ne := n / 40
